@@ -536,7 +536,11 @@ func c10NatToken(r c10ReadRec) string {
 // c10ModelLine builds the oracle line: configuration, plan and the environment as observed
 // (schedule of sender/receiver steps, what each unfaulted read delivered).
 func c10ModelLine(c c10Case, o c10Obs) string {
-	cfg := fmt.Sprintf("1 %d %s %s %s", c.MaxTTL, b2s(!c.Invalid), b2s(c.MCP), c.planString())
+	valid := b2s(!c.Invalid)
+	if c10Cancelled(c, o) {
+		valid = "c" // valid target, and the caller's context is done before the engine returns
+	}
+	cfg := fmt.Sprintf("1 %d %s %s %s", c.MaxTTL, valid, b2s(c.MCP), c.planString())
 	// positions in the log
 	readIdx, doneIdx := 0, 0
 	phase := "pre" // pre | hs | eng
@@ -649,6 +653,13 @@ func c10SpecLine(c c10Case, o c10Obs) string {
 		h = strings.Join(hits, ",")
 	}
 	return strings.TrimRight("wrap.spec "+res+" "+h+" "+strings.Join(c10WireLog(o), " "), " ")
+}
+
+// c10Cancelled: the case cancels the caller's context and the run was still going then. Only the ICMP
+// entry point is compared with the model under cancellation (the SACK wrapper also hands the context to
+// the dial and the handshake, which the model does not split by instant).
+func c10Cancelled(c c10Case, o c10Obs) bool {
+	return c.CancelAtMs > 0 && c.Variant == "icmp" && o.Elapsed >= time.Duration(c.CancelAtMs)*time.Millisecond
 }
 
 func c10ImplRes(o c10Obs) string {
@@ -827,8 +838,8 @@ func TestC10(t *testing.T) {
 			rep.Violate(hx.Violation{Kind: "spec", What: bad, Sig: sig, Replay: sample})
 			continue
 		}
-		if c.CancelAtMs > 0 {
-			continue // no cancellation input in the wrapper model: judged by the property's own wording only
+		if c.CancelAtMs > 0 && c.Variant != "icmp" {
+			continue // the wrapper model takes a cancellation input for ICMP only: SACK is judged by the property's own wording
 		}
 		if modelAns == "bad-op" {
 			t.Fatalf("oracle rejected %q", modelLine)
